@@ -115,7 +115,10 @@ pub(crate) mod verif_text_w_spec {
     pub fn mk(n: usize, p: &[u32], mode: u8, bits: u32) -> Iv {
         let top = lowmask(bits);
         let sh = [0, 0, bits / 4, bits - 8][(mode >> 2 & 3) as usize];
-        let f = |x: u32| -> u128 { match mode & 3 {
+        let f = |x: u32| -> u128 { if bits == 128 && mode & 0xE0 == 0xE0 {
+            // the IPv4-mapped corner ::ffff:0:0/96 and its neighbourhood (Ipv6Addr writes it in mixed notation)
+            return (0xffff_0000_0000u128 + (x as u128 % 48) * 0x0aaa_aaab).wrapping_sub(24) & top
+        } match mode & 3 {
             0 | 1 => ((x % 24) as u128) << sh,
             2 => top - (((x % 24) as u128) << sh),
             _ => (x as u128).wrapping_mul(if bits > 32 { 0x0000_0001_0000_0001_0000_0001_0000_0001 } else { 1 }) & top,
@@ -130,7 +133,9 @@ pub(crate) mod verif_text_w_spec {
     pub fn widen(p: &[u8]) -> Vec<u32> { p.iter().map(|b| *b as u32).collect() }
     /// Ipv6Addr prints IPv4-mapped addresses with dots ("::ffff:1.2.3.4"); the IPv6 block parsers take a dot
     /// for IPv4.  Such end points are kept out of the text round trips (reported separately, not a clause here).
-    pub fn v6_text_safe(v: &Iv) -> bool { v.iter().all(|b| (b.0 >> 32) != 0xffff && (b.1 >> 32) != 0xffff) }
+    /// (was: excludes end points in ::ffff:0:0/96, whose mixed-notation text did not parse back - repaired in /repo by
+    /// 50cfd82 "fix: IPv6 blocks write IPv4-mapped addresses in hexadecimal notation"; no exclusion any more)
+    pub fn v6_text_safe(v: &Iv) -> bool { true }
 }
 
 #[cfg(any(kani, verif_replay))]
@@ -416,7 +421,13 @@ mod verif_text_w_set {
     fn ip_view(b: &IpBlocks) -> Iv { b.iter().map(|x| (x.min().to_bits(), x.max().to_bits())).collect() }
     fn as_blocks(v: &Iv) -> AsBlocks { v.iter().map(|b| AsBlock::from((Asn::from_u32(b.0 as u32), Asn::from_u32(b.1 as u32)))).collect() }
     fn ip_blocks(v: &Iv) -> IpBlocks { v.iter().map(|b| IpBlock::from((Addr::from_bits(b.0), Addr::from_bits(b.1)))).collect() }
-    fn addr_s(v4: bool, x: u128) -> String { if v4 { Ipv4Addr::from(x as u32).to_string() } else { Ipv6Addr::from(x).to_string() } }
+    /// input text of an address; IPv6 always in hexadecimal groups (mixed notation "::ffff:1.2.3.4" is deliberately
+    /// taken for IPv4 by the block parsers - nothing is demanded for it)
+    fn addr_s(v4: bool, x: u128) -> String {
+        if v4 { Ipv4Addr::from(x as u32).to_string() }
+        else if x >> 32 == 0xffff { format!("::ffff:{:x}:{:x}", (x >> 16) & 0xffff, x & 0xffff) }
+        else { Ipv6Addr::from(x).to_string() }
+    }
     /// joins items with varying separators (spaces, empty items, leading / trailing separators)
     fn join(items: &[String], sep: u8) -> String {
         let mut t = String::new();
